@@ -5,6 +5,11 @@
 import Proofs.PyFileRefines
 import Proofs.SubRefines
 import Proofs.Run
+import Proofs.MergerRefines
+import Proofs.WrapperRefines
+import Proofs.CtrRefines
+import Proofs.TwlRefines
+import Proofs.CbcRefines
 namespace Pyctr.C09
 open Pyctr
 universe u
@@ -86,6 +91,42 @@ theorem C09_positions (f : AFile) (off : Int) :
     cases f.clamp <;> simp
     omega
   · intro h; simp [AFile.seek, h]
+
+/-- SplitFileMerger of readable parts reads like one ordinary (unclamped, read-only) file holding the parts in order -/
+theorem C09_merger_refines (hF : IsReadable F inv abs) :
+    IsReadOnly (Merger.ops F) (Merger.invM inv abs) (Merger.absM abs) := Merger.merger_isReadOnly hF
+
+theorem C09_merger_init (parts : List (σ × Nat)) (hp : ∀ p ∈ parts, inv p.1 ∧ p.2 ≤ (abs p.1).content.length) :
+    Merger.invM inv abs (Merger.create parts) := Merger.create_inv parts hp
+
+/-- CloseWrapper is pure delegation -/
+theorem C09_closewrapper_refines (hF : IsFile F inv abs) : IsFile (closeWrapperOps F) inv abs := closeWrapper_isFile hF
+
+/-- reader open files (`_ReaderOpenFileBase` over an in-memory entry) -/
+theorem C09_openfile_read (f : OpenFile) (n : Int) :
+    OpenFile.ops.read f n = .ok (((OpenFile.absO f).read n).1, (f.read n).2) ∧
+    OpenFile.absO (f.read n).2 = ((OpenFile.absO f).read n).2 := OpenFile.openFile_read f n
+
+theorem C09_openfile_seek (f : OpenFile) (off wh : Int) (hwh : wh = 0 ∨ wh = 1 ∨ wh = 2) :
+    (match OpenFile.seekOp f off wh with
+     | .error e => (OpenFile.absO f).seek off wh = .error e
+     | .ok (p, f') => (OpenFile.absO f).seek off wh = .ok (p, OpenFile.absO f')) := OpenFile.openFile_seek f off wh hwh
+
+/-- crypto wrappers stacked on windows, and a window on a CTR wrapper on a window (the NAND shape):
+    closure under stacking is just composition of the refinement theorems -/
+theorem C09_stack_nand (E : Bytes → Bytes) :
+    IsFile (Sub.ops (CtrIO.ops (Sub.ops PyFile.ops) E))
+      (Sub.invSub (CtrIO.invCtr (Sub.invSub (fun _ => True) PyFile.abs) (Sub.absSub PyFile.abs))
+        (CtrIO.absCtr E (Sub.absSub PyFile.abs)))
+      (Sub.absSub (CtrIO.absCtr E (Sub.absSub PyFile.abs))) :=
+  Sub.sub_isFile (CtrIO.ctr_isFile_of_fixed E (Sub.sub_isFile pyfile_isFile.toIsFileW).toIsFileW (fun _ _ => rfl)).toIsFileW
+
+theorem C09_stack_merged (E : Bytes → Bytes) :
+    IsReadOnly (Merger.ops (Sub.ops (CtrIO.ops (Sub.ops PyFile.ops) E)))
+      (Merger.invM (Sub.invSub (CtrIO.invCtr (Sub.invSub (fun _ => True) PyFile.abs) (Sub.absSub PyFile.abs))
+        (CtrIO.absCtr E (Sub.absSub PyFile.abs))) (Sub.absSub (CtrIO.absCtr E (Sub.absSub PyFile.abs))))
+      (Merger.absM (Sub.absSub (CtrIO.absCtr E (Sub.absSub PyFile.abs)))) :=
+  Merger.merger_isReadOnly (C09_stack_nand E).toIsReadable
 
 /-- non-vacuity: a concrete window satisfies the hypotheses and yields the expected bytes -/
 example : ((Sub.ops PyFile.ops).run ⟨⟨[0,1,2,3,4,5,6,7,8,9], 0⟩, 2, 4, 0⟩
